@@ -161,6 +161,7 @@ func opFromOvs(o ovsdb.Operation) OperationJ {
 func runC15(r *Run) {
 	c15Expand(r)
 	c15Create(r)
+	c15Reclaim(r)
 }
 
 func c15Expand(r *Run) {
@@ -456,6 +457,75 @@ func c15Expand(r *Run) {
 					}
 				}
 			}
+		}
+	}
+}
+
+// c15Reclaim: a name that is claimed again. A row is inserted under a name (with an explicit uuid), sometimes
+// deleted and inserted again under the same name and uuid (which the expansion accepts: one name, one uuid);
+// the operations that follow address "the row inserted under that name" in their conditions. They must reach
+// the row that is there: the update counts one row, the select returns it, the committed row carries the change.
+func c15Reclaim(r *Run) {
+	rng := r.Rng
+	ts := TxnSchema{Spec: c15Schema, Specs: map[string][]ISpec{"T": {}}}
+	n := 60
+	if r.Tier == "thorough" {
+		n = 600
+	}
+	for i := 0; i < n; i++ {
+		name := c15Names[rng.Intn(len(c15Names))]
+		u := mkUUID(7000 + i)
+		byName := []WCondJ{{Col: "_uuid", Fn: "==", Val: VA(AU(name))}}
+		again := rng.Intn(3)
+		ops := []OperationJ{{Op: "insert", Table: "T", UUIDName: name, UUID: u, Row: Row{"name": VA(AS("v0"))}}}
+		want := []string{"uuid"}
+		for k := 1; k <= again; k++ {
+			ops = append(ops, OperationJ{Op: "delete", Table: "T", Where: byName},
+				OperationJ{Op: "insert", Table: "T", UUIDName: name, UUID: u, Row: Row{"name": VA(AS(fmt.Sprintf("v%d", k)))}})
+			want = append(want, "count=1", "uuid")
+		}
+		label := fmt.Sprintf("l%d", i)
+		col, exp := "label", VO(&Atom{K: 's', S: label}).Canon()
+		switch rng.Intn(2) {
+		case 0:
+			ops = append(ops, OperationJ{Op: "update", Table: "T", Where: byName, Row: Row{"label": VS(AS(label))}})
+		default:
+			col, exp = "tags", VS(AS(label)).Canon()
+			ops = append(ops, OperationJ{Op: "mutate", Table: "T", Where: byName, Mutations: []MutationJ{{Col: "tags", Mutator: "insert", Val: VS(AS(label))}}})
+		}
+		ops = append(ops, OperationJ{Op: "select", Table: "T", Where: byName, Columns: []string{"name", "label", "tags"}})
+		want = append(want, "count=1", "rows=1")
+		cs := map[string]interface{}{"ops": ops}
+		r.Case("reclaim", mustJSON(ops))
+		r.Count(fmt.Sprintf("reclaim:again=%d", again))
+		im := newImplDB(ts)
+		out := im.transact(ops, nil)
+		var got []string
+		for _, x := range out.Results {
+			switch {
+			case x.Error != nil:
+				got = append(got, "error:"+*x.Error)
+			case x.UUID != "":
+				got = append(got, "uuid")
+			case x.Rows != nil:
+				got = append(got, fmt.Sprintf("rows=%d", len(x.Rows)))
+			default:
+				got = append(got, fmt.Sprintf("count=%d", x.Count))
+			}
+		}
+		if out.Panic != "" || strings.Join(got, " ") != strings.Join(want, " ") {
+			r.Violation("reclaim", cs, out.Panic+strings.Join(got, " "), strings.Join(want, " "), true,
+				"operations that address the row inserted under a name do not reach the row that holds the name", "")
+			continue
+		}
+		stored := ""
+		for _, d := range im.dump() {
+			if d.UUID == u && d.Row[col] != nil && d.Row["name"] != nil {
+				stored = d.Row["name"].Canon() + " " + d.Row[col].Canon()
+			}
+		}
+		if exp := VA(AS(fmt.Sprintf("v%d", again))).Canon() + " " + exp; stored != exp {
+			r.Violation("reclaim", cs, stored, exp, true, "the row committed under the name does not carry the change addressed to it by name", "")
 		}
 	}
 }
